@@ -86,7 +86,8 @@ func LoadKnown(path string) error {
 	}
 	for _, line := range strings.Split(string(b), "\n") {
 		line = strings.TrimSpace(line)
-		if line == "" || strings.HasPrefix(line, "#") {
+		if line == "" || strings.HasPrefix(line, "#") || strings.HasPrefix(line, "fixed:") {
+			// "fixed: property=<id> <commit> <what failed>" entries suppress nothing
 			continue
 		}
 		var k KnownFinding
